@@ -48,13 +48,13 @@ Record phase1 := mkP1 {
 Definition reprice (env : wash_env) (p : pool) (o : txobj) (pr : option pricing) : pool * txobj :=
   let (p1, o1) :=
     match pr with
-    | Some x => if executable o then (p, o) else (set_pricing p (hash o) x, set_price o (Some x))
+    | Some x => if executable o then (p, o) else (set_pricing p (hash o) (oid o) x, set_price o (Some x))
     | None => (p, o)
     end in
   match w_refresh env o1, price o1 with
   | Some g, Some old =>
     let x := mkPricing (payer old) (pcost old) g in
-    (set_pricing p1 (hash o1) x, set_price o1 (Some x))
+    (set_pricing p1 (hash o1) (oid o1) x, set_price o1 (Some x))
   | _, _ => (p1, o1)
   end.
 
